@@ -36,7 +36,7 @@ EXCLUDED_DIRS = (".git", "node_modules", "__pycache__", ".venv", "venv", "build"
 EXCLUDED_SUFFIX_DIR = ".egg-info"
 COMPILED_EXT = (".pyc", ".pyo", ".pyd", ".so", ".dll", ".dylib", ".class", ".o", ".obj")
 
-DEVIATIONS = ("dirpat-prefix", "globstar-needs-dir", "basename-whole-path", "filename-like-excluded-dir")
+DEVIATIONS = ("dirpat-prefix", "globstar-needs-dir", "basename-whole-path", "filename-like-excluded-dir")  # all repaired in /repo; kept to classify regressions
 
 
 def is_excluded_dirname(name: str) -> bool:
